@@ -226,7 +226,14 @@ def storm_scenario(sid, mn, mx, rng, n=600):
     for _ in range(n):
         rid += 1
         ids.append(rid)
-        sc["steps"].append(req_step(rid, rng.choice(["Execute", "ExecuteConcurrent", "ExecuteRulesWithMultiInputWithSpecifiedEM", "ExecuteSelectedRules"]), names, hold_at="", wait_ms=-1))
+        meth = rng.choice(["Execute", "ExecuteConcurrent", "ExecuteRulesWithMultiInputWithSpecifiedEM", "ExecuteSelectedRules", "ExecuteDAGModel", "ExecuteSelectedRules"])
+        st = req_step(rid, meth, names, hold_at="", wait_ms=-1)
+        # degenerate requests: an EMPTY dag, an EMPTY name list — they take an instance like any other and must hand it back
+        if meth == "ExecuteDAGModel" and rng.random() < 0.6:
+            st["layers"] = []
+        if meth == "ExecuteSelectedRules" and rng.random() < 0.3:
+            st["names"] = []
+        sc["steps"].append(st)
     for q in ids:
         sc["steps"].append({"op": "wait", "id": q})
     sc["steps"].append({"op": "snapshot", "probe": names, "_active": [], "_done": []})
